@@ -149,7 +149,7 @@ class Dongle:
             w.log.append(("fault", f, apdu))
             raise link_fault(f)
         tag = w.tag() if callable(w.tag) else w.tag
-        w.log.append(("apdu", self.id, apdu, tag))
+        w.log.append(("apdu", self.id, apdu, tag, (w.mode, w.onboarded, w.unlocked)))
         if w.delay is not None:
             w.delay(self, apdu)
         if isinstance(f, int):
